@@ -10,7 +10,9 @@ use serde_json::{json, Value};
 use std::sync::{Arc, Mutex};
 use std::time::Instant;
 
-const KEYS: [&str; 28] = [
+const KEYS: [&str; 30] = [
+    // for per_sec the field width is the number of decimals
+    "per_sec:0", "per_sec:2",
     "spinner", "prefix", "msg", "pos", "human_pos", "len", "human_len", "percent", "percent_precise", "bytes", "total_bytes", "decimal_bytes", "decimal_total_bytes", "binary_bytes",
     "binary_total_bytes", "elapsed_precise", "elapsed", "per_sec", "bytes_per_sec", "decimal_bytes_per_sec", "binary_bytes_per_sec", "eta_precise", "eta", "duration_precise", "duration", "bar", "wide_bar", "wide_msg",
 ];
@@ -54,6 +56,8 @@ fn expected(key: &str, pb: &ProgressBar, ticks: u64, finished: bool) -> Option<V
         "elapsed_precise" => one(FormattedDuration(pb.elapsed()).to_string()),
         "elapsed" => one(format!("{:#}", HumanDuration(pb.elapsed()))),
         "per_sec" => one(format!("{}/s", HumanFloatCount(pb.per_sec()))),
+        "per_sec:0" => one(format!("{:.0}/s", HumanFloatCount(pb.per_sec()))),
+        "per_sec:2" => one(format!("{:.2}/s", HumanFloatCount(pb.per_sec()))),
         "bytes_per_sec" | "binary_bytes_per_sec" => Some(vec![format!("{}/s", HumanBytes(pb.per_sec() as u64)), format!("{}/s", BinaryBytes(pb.per_sec() as u64))]),
         "decimal_bytes_per_sec" => one(format!("{}/s", DecimalBytes(pb.per_sec() as u64))),
         "eta_precise" => one(FormattedDuration(pb.eta()).to_string()),
@@ -223,7 +227,7 @@ pub fn run(tier: Tier, shard: Shard, stats: &mut Stats) {
     }
     // custom keys: receive the current state when written, ticked and reset together with the bar;
     // every frame painted along the way shows the state and the elapsed time of that instant
-    let nops = 10u8;
+    let nops = 11u8;
     let mut seqs: Vec<Vec<u8>> = vec![vec![]];
     let depth = if tier == Tier::Quick { 4 } else { 7 };
     for _ in 0..depth {
@@ -255,10 +259,11 @@ pub fn run(tier: Tier, shard: Shard, stats: &mut Stats) {
         stats.evaluations += 1;
         stats.transitions += 1;
         clock::reset();
-        let names = ["tick", "inc(2)", "set_position(7)", "set_length(9)", "reset", "finish", "set_message", "suspend(closure taking 2 s)", "println", "set_draw_target(visible)"];
+        let names = ["tick", "inc(2)", "set_position(7)", "set_length(9)", "reset", "finish", "set_message", "suspend(closure taking 2 s)", "println", "set_draw_target(visible)", "the next flush of the terminal fails once"];
         let hist: Vec<String> = std::iter::once(format!("template [{{k}}] {{elapsed_precise}}{}", if start_hidden { ", bar created with a hidden target" } else { "" })).chain(seq.iter().map(|&o| names[o as usize].to_string())).collect();
         let probe = Probe::default();
         let log = probe.log.clone();
+        catcher.fail_flush.store(false, std::sync::atomic::Ordering::Relaxed);
         let r = catch(|| {
             let style = ProgressStyle::with_template("[{k}] {elapsed_precise}").unwrap().with_key("k", probe.clone());
             let pb = if start_hidden { indicatif::ProgressBar::with_draw_target(Some(10), indicatif::ProgressDrawTarget::hidden()).with_style(style) } else { bar_on(&catcher, Some(10), style) };
@@ -296,6 +301,7 @@ pub fn run(tier: Tier, shard: Shard, stats: &mut Stats) {
                     }
                     7 => pb.suspend(|| clock::advance_ms(2000)),
                     8 => pb.println("log"),
+                    10 => catcher.fail_flush.store(true, std::sync::atomic::Ordering::Relaxed),
                     _ => pb.set_draw_target(indicatif::ProgressDrawTarget::term_like(Box::new(catcher.clone()))),
                 }
                 // the frame this operation painted (if any): last line payload before the right-edge filler
@@ -303,7 +309,10 @@ pub fn run(tier: Tier, shard: Shard, stats: &mut Stats) {
                 if painted.len() >= 2 && stale.is_none() {
                     let line = &painted[painted.len() - 2];
                     let want = want_now(&pb);
-                    if line.starts_with("[W") && *line != want {
+                    // one frame = one bar line: a second one is a leftover of an earlier frame
+                    if painted.iter().filter(|l| l.starts_with("[W")).count() > 1 {
+                        stale = Some(format!("operation #{i} ({}) painted {} bar lines in one frame: {:?}", names[o as usize], painted.iter().filter(|l| l.starts_with("[W")).count(), painted));
+                    } else if line.starts_with("[W") && *line != want {
                         stale = Some(format!("operation #{i} ({}) painted {:?}, the bar's state at that instant is {:?}", names[o as usize], line, want));
                     }
                 }
@@ -348,7 +357,7 @@ pub fn meta(tier: Tier) -> Meta {
     let _ = tier;
     Meta {
         level: "exploration",
-        rule: "every documented key except the geometry/truncation keys (25 keys) alone in a template x 110 position/length pairs incl. 0, length<position, unknown length, 2^53+1, u64::MAX x 3 statuses x 3-5 frozen elapsed times (0.4 s .. 400 d) x 0-2 earlier updates x tick counts; rendered text must equal the public getter at the same frozen instant pushed through the public formatter; plus every sequence of <= 4 (7 thorough) operations from {tick, inc, set_position, set_length, reset, finish, set_message, suspend with a closure that takes 2 s, println, set_draw_target(visible)} on a bar with a recording ProgressTracker and {elapsed_precise}, created visible or hidden: every frame painted by an operation and the final frame equal the getters of that instant, one tracker tick per bar tick, one tracker reset per reset() seeing the reset state; distinct = (key, rendered text); non-trivial = non-zero position or elapsed > 0.4 s".into(),
+        rule: "every documented key except the geometry/truncation keys (25 keys) alone in a template x 110 position/length pairs incl. 0, length<position, unknown length, 2^53+1, u64::MAX x 3 statuses x 3-5 frozen elapsed times (0.4 s .. 400 d) x 0-2 earlier updates x tick counts; rendered text must equal the public getter at the same frozen instant pushed through the public formatter; plus every sequence of <= 4 (7 thorough) operations from {tick, inc, set_position, set_length, reset, finish, set_message, suspend with a closure that takes 2 s, println, set_draw_target(visible), one failing flush} on a bar with a recording ProgressTracker and {elapsed_precise}, created visible or hidden: every frame painted by an operation and the final frame equal the getters of that instant, one tracker tick per bar tick, one tracker reset per reset() seeing the reset state; distinct = (key, rendered text); non-trivial = non-zero position or elapsed > 0.4 s".into(),
         assumptions: vec!["virtual clock frozen between the draw and the getter calls, so time-dependent keys are comparable exactly".into(), "percent may be computed from the f32 or the f64 quotient".into()],
         bounds: json!({"keys": KEYS.len() - 3}),
         exhaustive: true,
